@@ -45,7 +45,7 @@ impl Scenario for Tiling {
         format!("tiling-{}", self.len)
     }
     fn cfg(&self) -> WorldCfg {
-        WorldCfg { torrent: self.torrent(), have: vec![], peers: vec![peer_cfg(0, true)], gated: false }
+        WorldCfg { torrent: self.torrent(), have: vec![], peers: vec![peer_cfg(0, true)], gated: false, stale: vec![] }
     }
     fn setup(&self, w: &mut World, _mon: &mut Mon) {
         let t = w.t.clone();
@@ -184,6 +184,8 @@ pub struct ConnMon {
     pub requested: BTreeSet<(u32, u32)>,
     pub answered_bytes: u32,
     pub scanned: usize,
+    pub extra_unchokes: usize,
+    pub closed: bool,
 }
 
 #[derive(Default)]
@@ -197,7 +199,7 @@ impl Scenario for Tiling2 {
         format!("tiling2-{}", self.len)
     }
     fn cfg(&self) -> WorldCfg {
-        WorldCfg { torrent: Torrent::new("t", self.len, &[("f", 3 * self.len)], true), have: vec![], peers: vec![peer_cfg(0, true), peer_cfg(1, false)], gated: false }
+        WorldCfg { torrent: Torrent::new("t", self.len, &[("f", 3 * self.len)], true), have: vec![], peers: vec![peer_cfg(0, true), peer_cfg(1, false)], gated: false, stale: vec![] }
     }
     fn explore_choices(&self) -> bool {
         true
@@ -217,8 +219,16 @@ impl Scenario for Tiling2 {
                 continue;
             }
             // the unchoke comes at any point (so the two connections start in any order)
+            if mon.c[k].closed {
+                continue;
+            }
             if w.handler(k).map(|h| h.choked).unwrap_or(false) {
                 e.push(format!("U{}", k));
+            } else if mon.c[k].extra_unchokes < 1 {
+                e.push(format!("V{}", k)); // a repeated Unchoke while already unchoked
+            }
+            if !mon.c[1 - k].closed {
+                e.push(format!("X{}", k)); // this connection is lost (the other one stays)
             }
             for j in 0..mon.c[k].outstanding.len() {
                 e.push(format!("A{}:{}", k, j));
@@ -228,8 +238,11 @@ impl Scenario for Tiling2 {
     }
     fn concretize(&self, w: &World, mon: &Mon2, sym: &str) -> Vec<Ev> {
         let k: usize = sym[1..2].parse().unwrap();
-        if sym.starts_with('U') {
+        if sym.starts_with('U') || sym.starts_with('V') {
             return vec![Ev::Feed(k, refwire::encode(&Msg::Unchoke))];
+        }
+        if sym.starts_with('X') {
+            return vec![Ev::Close(k)];
         }
         let j: usize = sym[3..].parse().unwrap();
         let r = mon.c[k].outstanding[j];
@@ -245,6 +258,14 @@ impl Scenario for Tiling2 {
         let t = &w.t;
         let mut accepted: Option<(usize, (u32, u32, u32))> = None;
         if let Some(sym) = last {
+            if sym.starts_with('V') {
+                mon.c[sym[1..2].parse::<usize>().unwrap()].extra_unchokes += 1;
+            }
+            if sym.starts_with('X') {
+                let k: usize = sym[1..2].parse().unwrap();
+                mon.c[k].closed = true;
+                mon.c[k].outstanding.clear();
+            }
             if sym.starts_with('A') {
                 let k: usize = sym[1..2].parse().unwrap();
                 let j: usize = sym[3..].parse().unwrap();
@@ -254,6 +275,9 @@ impl Scenario for Tiling2 {
             }
         }
         for k in 0..2 {
+            if mon.c[k].closed {
+                continue;
+            }
             let msgs = &w.peers[k].msgs;
             let mut new_requests_cur = 0u32;
             let mut cancelled = false;
@@ -332,7 +356,7 @@ impl Scenario for Tiling2 {
         None
     }
     fn key(&self, w: &World, mon: &Mon2) -> String {
-        let c: Vec<String> = mon.c.iter().map(|c| format!("{:?}/{:?}/{:?}/{}", c.outstanding, c.cur, c.requested, c.answered_bytes)).collect();
+        let c: Vec<String> = mon.c.iter().map(|c| format!("{:?}/{:?}/{:?}/{}/{}/{}", c.outstanding, c.cur, c.requested, c.answered_bytes, c.extra_unchokes, c.closed)).collect();
         format!("{} mon={:?}", crate::c12::strip_counters(&w.default_key()), c)
     }
     fn tags(&self, w: &World, _mon: &Mon2) -> Vec<&'static str> {
@@ -398,7 +422,7 @@ pub fn run(ctx: &Ctx) -> Outcome {
     explore::stats_outcome(&total, &mut o);
     o.set("block_lists_enumerated", json!(enumerated));
     o.set("scenarios", Value::Array(per));
-    o.set("rule", json!("E-ENUM: PieceRx::left(n) for every n in 1..=81921. E-SYS: per piece length in [1,16383,16384,16385,32768,32769,49153] a 2-piece torrent (second piece = short last piece of 5 bytes); events A<k> = correct answer to the k-th outstanding request, D = duplicate of the last answered block; BFS over all histories until both pieces are complete (depth <= 14); a state = canonical snapshot of manager + handler + files + outstanding set. Two-connection scenarios (tiling2-<len>): 3 pieces of <len> bytes, two connections (end game, so both may be asked for the same piece and the slower one is cancelled and re-assigned), events U<k> unchoke, A<k>:<j> correct answer to the j-th outstanding request of connection k, every chooser tie-break; the same tiling / follow-up / completion obligations per assignment, plus: no connection waits for a block already delivered, requested blocks are tracked."));
+    o.set("rule", json!("E-ENUM: PieceRx::left(n) for every n in 1..=81921. E-SYS: per piece length in [1,16383,16384,16385,32768,32769,49153] a 2-piece torrent (second piece = short last piece of 5 bytes); events A<k> = correct answer to the k-th outstanding request, D = duplicate of the last answered block; BFS over all histories until both pieces are complete (depth <= 14); a state = canonical snapshot of manager + handler + files + outstanding set. Two-connection scenarios (tiling2-<len>): 3 pieces of <len> bytes, two connections (end game, so both may be asked for the same piece and the slower one is cancelled and re-assigned), events U<k> unchoke, V<k> one repeated unchoke, X<k> loss of a connection, A<k>:<j> correct answer to the j-th outstanding request of connection k, every chooser tie-break; the same tiling / follow-up / completion obligations per assignment, plus: no connection waits for a block already delivered, requested blocks are tracked."));
     o.assume("one connection, honest payloads (corrupt ones are C01's subject), tie-breaks of the piece chooser fixed to the identity shuffle");
     o
 }
